@@ -133,6 +133,8 @@ def project_snapshot(root, order, names):
 def run(chk):
     chk.build(["theories/Corr/C01.vo", "theories/Corr/C20.vo", "theories/Props/C20.vo"])
     chk.props("theories/Props/C20.v", THEOREMS)
+    if chk.tier == "thorough":
+        chk.coqchk(["Ford.Props.C20"])
     rng = chk.rng
     quick = chk.tier == "quick"
     work = tempfile.mkdtemp(prefix="verif_c20_")
